@@ -33,6 +33,13 @@ CHECKS = {
             "undecodable messages, with all maximal behaviours (>15k quick, >150k thorough) replayed on the real code: continuation kind, error kind, state, "
             "outbound message, combiner order and released share compared after every action; continuations encoded/decoded/re-evaluated at every step.",
             "Bounds: rounds <= 4, adversarial deliveries <= 1..3, behaviour length <= 8; the VDAF under the topology is the harness's instrumented one."),
+    "C20": ("DESIGN.md#c20--aggregation-parameter-admissibility",
+            "TLA+ spec of the admissibility rule, well-formedness and wire format (AggParam.tla); TLC enumerates all parameters/histories for small bit lengths "
+            "and all constructor/decoder inputs; verdicts replayed against Poplar1/Prio3/Prio2",
+            "Exhaustive enumeration for bit lengths 2 and 3 (every non-empty prefix set at every level, every history up to length 3 resp. 1-2), every prefix "
+            "list of <= 3 prefixes in every order for the constructor, and mutated encodings for the decoder, each with the verdict computed by TLC from the "
+            "declarative rule; the implementation must agree on every single one.",
+            "Only bit lengths <= 3 are enumerated; the 2^16 length limit is covered by C16's lattice."),
 }
 
 NOT_YET = {}
